@@ -1584,6 +1584,9 @@ class FDE:
             if kind_ == 'nullcontext' and len(args) <= 1:
                 return SimpleCM('nullcontext', args[0] if args else None)
             raise Unsupported('call of %s' % unparse(f))
+        if unparse(f) in ('itertools.repeat', 'repeat') and not (isinstance(f, ast.Name) and f.id in env) and len(args) == 2 and not kwargs and isinstance(args[1], int) \
+                and not isinstance(args[1], bool) and (fi is None or isinstance(f, ast.Attribute) or str(fi.module.imports.get(f.id, '')).startswith('itertools')):
+            return [args[0]] * max(args[1], 0)       # itertools.repeat(x, n): n times the same object
         if unparse(f) in ('collections.deque', 'deque') and not (isinstance(f, ast.Name) and f.id in env) and len(args) <= 2 \
                 and (not args or isinstance(args[0], (list, tuple)) or type(args[0]).__name__ in _ITER_TYPES) and set(kwargs) <= {'maxlen'}:
             # a deque filled once from an iterable: the (last maxlen) elements, as a list (the input is consumed completely)
